@@ -412,8 +412,16 @@ static void monitors(const op_t * op, const obs_t * b, const obs_t * a, int qcap
                          (int) op->code, (int) a->last, qcls, eb, ea, qbit);
             }
         }
-        /* (2a) latch: a 0->1 change of a condition bit sets the same event bit; what was set stays set */
+        /* (2a) latch: a 0->1 change of a condition bit sets the same event bit; what was set stays set. The change is the one the application
+         * REPORTED through the API (SCPI_RegSet / SetBits / ClearBits of the condition register): a write that is dropped - the register does not
+         * read back what was written - has lost the transition before it could be latched */
         if (oc == OC_COND_WRITE) {
+            for (g = 1; g < NG; g++) if (op->a == g_cond[g]) {
+                uint16_t before = b->r[g_cond[g]], asked = op->kind == K_SET ? op->val : op->kind == K_SETBITS ? (uint16_t) (before | op->val) : op->kind == K_CLRBITS ? (uint16_t) (before & ~op->val) : a->r[g_cond[g]];
+                if (a->r[g_cond[g]] != asked)
+                    find("C12:condition-write-lost", "%s(%s, 0x%04x) with the register at 0x%04x: it reads 0x%04x afterwards, 0x%04x was asked for (rising bits 0x%04x never reached the event register)", op->kind == K_SET ? "SCPI_RegSet" : op->kind == K_SETBITS ? "SCPI_RegSetBits" : "SCPI_RegClearBits",
+                         regname[g_cond[g]], op->val, before, a->r[g_cond[g]], asked, (unsigned) (asked & ~before) & 0xffff);
+            }
             for (g = 1; g < NG; g++) if (op->a == g_cond[g]) {
                 uint16_t rise = a->r[g_cond[g]] & ~b->r[g_cond[g]];
                 uint16_t need = b->r[g_event[g]] | rise;
